@@ -7,6 +7,12 @@
 (* Blocks are identified abstractly by <<height, variant>>; the header     *)
 (* hash of a block is that pair.                                           *)
 (*                                                                         *)
+(* A save that replaces a block of another hash removes the old hash's     *)
+(* index entry; AtomicSave says whether that removal is part of the same   *)
+(* atomic write (pinned tree: yes) or a separate earlier write (a seeded   *)
+(* change): then a crash between the two leaves the old block without its  *)
+(* index entry.                                                            *)
+(*                                                                         *)
 (* Deviation of the pinned tree kept as a switch:                          *)
 (*   DropStaleIndex = FALSE  overwriting a height with a different block   *)
 (*                    leaves the old hash's index entry pointing at the    *)
@@ -15,14 +21,16 @@
 (***************************************************************************)
 EXTENDS Integers, Sequences, FiniteSets, TLC
 
-CONSTANTS Heights, Variants, MetaKeys, Values, DropStaleIndex
+CONSTANTS Heights, Variants, MetaKeys, Values, DropStaleIndex,
+          AtomicSave      \* TRUE: a block save is one atomic write
 
-VARIABLES blocks,   \* height -> variant (partial function)
+VARIABLES pend,     \* a save whose first write (stale index removal) is done and whose batch is not: <<h, v>> or <<>>
+          blocks,   \* height -> variant (partial function)
           index,    \* set of <<height, variant>> hashes that have an index entry
           height, state, meta, ops
 
 svars == <<blocks, index, height, state, meta>>
-vars == <<blocks, index, height, state, meta, ops>>
+vars == <<blocks, index, height, state, meta, ops, pend>>
 NoVal == "none"
 
 SInit == /\ blocks = <<>> /\ index = {} /\ height = 0 /\ state = NoVal /\ meta = <<>>
@@ -44,17 +52,32 @@ ByHeight(h) == IF Has(h) THEN <<TRUE, blocks[h]>> ELSE <<FALSE, NoVal>>
 ByHash(h, v) == IF <<h, v>> \in index /\ Has(h) THEN <<TRUE, blocks[h]>> ELSE <<FALSE, NoVal>>
 GetMeta(k) == IF k \in DOMAIN meta THEN <<TRUE, meta[k]>> ELSE <<FALSE, NoVal>>
 
-Init == SInit /\ ops = 0
+Init == SInit /\ ops = 0 /\ pend = <<>>
+\* a non-atomic save of a different block over an existing one: first write = removal of the stale index entry
+SaveFirstWrite(h, v) ==
+    /\ ~AtomicSave /\ pend = <<>> /\ Has(h) /\ blocks[h] # v
+    /\ index' = index \ {<<h, blocks[h]>>} /\ pend' = <<h, v>>
+    /\ UNCHANGED <<blocks, height, state, meta>>
+SaveSecondWrite == /\ pend # <<>> /\ pend' = <<>>
+                   /\ LET h == pend[1] v == pend[2] IN SaveEff(h, v)
+\* a crash loses the save in flight; everything written before stays
+Crash == /\ pend # <<>> /\ pend' = <<>> /\ UNCHANGED <<blocks, index, height, state, meta>>
+\* a save is a single write unless it is non-atomic and replaces a block of another hash
+OneWrite(h, v) == IF AtomicSave THEN TRUE ELSE IF ~Has(h) THEN TRUE ELSE blocks[h] = v
+AtomicOp ==
+    /\ pend = <<>> /\ pend' = pend
+    /\ \/ \E h \in Heights, v \in Variants : OneWrite(h, v) /\ SaveEff(h, v)
+       \/ \E n \in Heights \cup {0} : SetHeightEff(n)
+       \/ \E s \in Values : UpdateStateEff(s)
+       \/ \E k \in MetaKeys, x \in Values : SetMetaEff(k, x)
 Next == /\ ops < 5 /\ ops' = ops + 1
-        /\ \/ \E h \in Heights, v \in Variants : SaveEff(h, v)
-           \/ \E n \in Heights \cup {0} : SetHeightEff(n)
-           \/ \E s \in Values : UpdateStateEff(s)
-           \/ \E k \in MetaKeys, x \in Values : SetMetaEff(k, x)
+        /\ (AtomicOp \/ (\E h \in Heights, v \in Variants : SaveFirstWrite(h, v)) \/ SaveSecondWrite \/ Crash)
 Spec == Init /\ [][Next]_vars
 
 \* C14
 HeightOnlyGrows == [][height' >= height]_vars
 \* a lookup by hash returns the block with that hash or nothing (holds only with DropStaleIndex)
 HashLookupExact == \A h \in Heights, v \in Variants : ByHash(h, v)[1] => ByHash(h, v)[2] = v
-SavedRetrievable == \A h \in DOMAIN blocks : ByHeight(h) = <<TRUE, blocks[h]>> /\ ByHash(h, blocks[h]) = <<TRUE, blocks[h]>>
+\* at rest (no save in flight): every stored block is retrievable by height and by its hash - all or nothing
+SavedRetrievable == pend = <<>> => \A h \in DOMAIN blocks : ByHeight(h) = <<TRUE, blocks[h]>> /\ ByHash(h, blocks[h]) = <<TRUE, blocks[h]>>
 =============================================================================
